@@ -101,6 +101,7 @@ class Built:
         self.name = name
         self.ok = ok
         self.log = logtext
+        self.timed_out = False
 
     @property
     def bytecode(self):
@@ -152,7 +153,11 @@ def build_package(name, source, profile='debug', env=None, extra_toml='', extra_
         ok = r.returncode == 0 and os.path.exists(os.path.join(tmp, 'out', name + '.bin'))
         out = r.stdout or ''
     except subprocess.TimeoutExpired:
-        ok, out = False, 'forc build timed out'
+        # not a verdict about the compiler: do not cache, report as a build that could not be done
+        shutil.rmtree(tmp, ignore_errors=True)
+        b = Built(os.path.join(d, 'out'), name, False, 'forc build timed out (machine overloaded?)')
+        b.timed_out = True
+        return b
     out = out[-6000:]
     json.dump({'ok': ok, 'log': out, 'profile': profile, 'env': env},
               open(os.path.join(tmp, 'status.json'), 'w'))
